@@ -162,6 +162,68 @@ fn op_check(src: &str) -> String {
     out
 }
 
+/// Every position stored in the syntax tree (expressions, symbols,
+/// type symbols, type hints, block braces, function definitions),
+/// with all six numeric fields, plus parse errors.
+struct PosDump {
+    out: String,
+}
+
+impl PosDump {
+    fn push(&mut self, kind: &str, p: &Position) {
+        self.out.push_str(&format!("(p {} {}) ", kind, pos_str(p)));
+    }
+}
+
+impl crate::parser::visitor::Visitor for PosDump {
+    fn visit_expr(&mut self, expr: &crate::parser::ast::Expression) {
+        self.push("expr", &expr.position);
+        self.visit_expr_(&expr.expr_);
+    }
+
+    fn visit_symbol(&mut self, sym: &Symbol) {
+        self.push("sym", &sym.position);
+    }
+
+    fn visit_type_symbol(&mut self, sym: &crate::parser::ast::TypeSymbol) {
+        self.push("tsym", &sym.position);
+    }
+
+    fn visit_type_hint(&mut self, type_hint: &crate::parser::ast::TypeHint) {
+        self.push("hint", &type_hint.position);
+        self.visit_type_symbol(&type_hint.sym);
+        for arg in &type_hint.args {
+            self.visit_type_hint(arg);
+        }
+    }
+
+    fn visit_block(&mut self, block: &crate::parser::ast::Block) {
+        self.push("open", &block.open_brace);
+        self.push("close", &block.close_brace);
+        for expr in &block.exprs {
+            self.visit_expr(expr);
+        }
+    }
+
+    fn visit_fun_info(&mut self, fun_info: &crate::parser::ast::FunInfo) {
+        self.push("fun", &fun_info.pos);
+        self.visit_fun_info_default(fun_info);
+    }
+}
+
+fn op_astpos(src: &str) -> String {
+    use crate::parser::visitor::Visitor as _;
+
+    let mut id_gen = IdGenerator::default();
+    let (_vfs, vfs_path) = Vfs::singleton(verif_path(), src.to_owned());
+    let (items, errors) = parse_toplevel_items(&vfs_path, src, &mut id_gen);
+    let mut dump = PosDump { out: String::new() };
+    for item in &items {
+        dump.visit_toplevel_item(item);
+    }
+    format!("{}{}", dump.out, parse_errors_str(&errors))
+}
+
 fn op_format(src: &str) -> String {
     hex(&crate::format::format(src, &verif_path()))
 }
@@ -406,6 +468,7 @@ fn handle(line: &str) -> Result<String, String> {
         "ping" => Ok("pong".to_owned()),
         "lex" => Ok(op_lex(&unhex(rest)?)),
         "ast" => Ok(op_ast(&unhex(rest)?)),
+        "astpos" => Ok(op_astpos(&unhex(rest)?)),
         "front" => Ok(op_front(&unhex(rest)?)),
         "check" => Ok(op_check(&unhex(rest)?)),
         "format" => Ok(op_format(&unhex(rest)?)),
